@@ -366,11 +366,50 @@ def builtinCall (s : Store) (code : Nat) (ps : List Val) : Option (Store × Val)
     | some c, some d => some (s.set "cnt" (.int (c + d)), .int (c + d))
     | _, _ => Option.none
   | 8, [x] => some (s.set "last" x, x)                          -- keep::{last::x}
+  | 9, [.int x, .int y] => some (s, .int (x - y))               -- sub::{x-y}        (integers)
+  | 10, [.str x, .str y] => some (s, .str (x ++ y))             -- cat::{x,y}        (strings)
+  | 11, [.int x, .int y, .int z] => some (s, .list [.int x, .int y, .int z])   -- tri::{x,y,z} (integers)
   | _, _ => Option.none
+
+/-- names bound to projections: base function and its argument slots (`none` = open).
+    `dec::sub(;1)` `from10::sub(10;)` `suf::cat(;">")` `pre::cat("<";)` `mid::tri(1;;3)` `ends::tri(;2;)`
+    `lead1::tri(7;;)` `nest::lead1(8;)` `nend::ends(;9)` `nmid::ends(5;)` -/
+def projOf : Nat → Option (Nat × List (Option Val))
+  | 12 => some (9, [Option.none, some (.int 1)])
+  | 13 => some (9, [some (.int 10), Option.none])
+  | 14 => some (10, [Option.none, some (.str ">")])
+  | 15 => some (10, [some (.str "<"), Option.none])
+  | 16 => some (11, [some (.int 1), Option.none, some (.int 3)])
+  | 17 => some (11, [Option.none, some (.int 2), Option.none])
+  | 18 => some (11, [some (.int 7), Option.none, Option.none])
+  | 19 => some (18, [some (.int 8), Option.none])
+  | 20 => some (17, [Option.none, some (.int 9)])
+  | 21 => some (17, [some (.int 5), Option.none])
+  | _ => Option.none
+
+/-- a projection takes as many arguments as it has open slots; they fill the open slots in order,
+    the fixed arguments keep their positions -/
+def fillSlots : List (Option Val) → List Val → Option (List Val)
+  | [], [] => some []
+  | [], _ :: _ => Option.none
+  | some v :: r, ps => (fillSlots r ps).map (v :: ·)
+  | Option.none :: r, p :: ps => (fillSlots r ps).map (p :: ·)
+  | Option.none :: _, [] => Option.none
+
+def callCode : Nat → Store → Nat → List Val → Option (Store × Val)
+  | 0, _, _, _ => Option.none
+  | f + 1, s, code, ps =>
+    match projOf code with
+    | some (base, slots) => (fillSlots slots ps).bind (callCode f s base)
+    | Option.none => builtinCall s code ps
 
 def builtins : Store :=
   [("k0", .fn 0 0), ("id1", .fn 1 1), ("snd", .fn 2 2), ("trd", .fn 3 3), ("und1", .fn 1 4),
-   ("pyid", .fn 1 5), ("pysnd", .fn 2 6), ("bump", .fn 1 7), ("keep", .fn 1 8), ("cnt", .int 0), ("last", .int 0)]
+   ("pyid", .fn 1 5), ("pysnd", .fn 2 6), ("bump", .fn 1 7), ("keep", .fn 1 8), ("cnt", .int 0), ("last", .int 0),
+   ("sub", .fn 2 9), ("cat", .fn 2 10), ("tri", .fn 3 11),
+   -- projections: the arity is the number of open slots
+   ("dec", .fn 1 12), ("from10", .fn 1 13), ("suf", .fn 1 14), ("pre", .fn 1 15), ("mid", .fn 1 16),
+   ("ends", .fn 2 17), ("lead1", .fn 2 18), ("nest", .fn 1 19), ("nend", .fn 1 20), ("nmid", .fn 1 21)]
 
 /-- arity of the function bodies the harness (re)defines by text: `{77}` `{x}` `{x;y}` `{x;y;z}` -/
 def codeArity : Nat → Nat
@@ -381,7 +420,7 @@ def codeArity : Nat → Nat
 
 def miniCall (s : Store) (f : Val) (ps : List Val) : Option (Store × Val) :=
   match f with
-  | .fn _ code => builtinCall s code ps
+  | .fn _ code => callCode 4 s code ps
   | _ => Option.none
 
 def evalExpr (s : Store) : Expr → Option (Store × Val)
